@@ -1,3 +1,4 @@
 pub mod cfg;
 pub mod progen;
+pub mod syngen;
 pub mod c17gen;
